@@ -27,6 +27,7 @@ type Opts struct {
 	Classes     bool
 	Direction   bool
 	Tooltips    bool
+	DeepNest    bool // containers are likely and nest to depth 4
 	LabelPos    bool // label.near / icon.near positions on shapes, containers and near shapes
 	CrossEdges  bool // connections from outside into grids / sequence diagrams, some of them parallel
 	SpecialOnly string // "grid" | "sequence" | "near": make that construct the point of the diagram
@@ -153,6 +154,9 @@ func (x *g) obj(abs, ind string, depth int, role string, budget *int) string {
 	*budget--
 	m := ObjMeta{ID: id, Shape: "rectangle", Role: role}
 	isContainer := x.o.Containers && depth < 3 && *budget > 0 && x.p(30) && role != "actor"
+	if x.o.DeepNest {
+		isContainer = depth < 4 && *budget > 0 && x.p(65)
+	}
 	fmt.Fprintf(&x.sb, "%s%s: ", ind, n)
 	if x.p(45) {
 		m.Label = x.label()
@@ -198,7 +202,7 @@ func (x *g) obj(abs, ind string, depth int, role string, budget *int) string {
 	x.styles(in2, false)
 	// label positions only on containers (and on near shapes, below): on leaves the engines' label padding
 	// interacts with explicit sizes and connection ends in ways outside the properties' wording
-	if x.o.LabelPos && isContainer && x.p(35) {
+	if x.o.LabelPos && isContainer && (x.p(35) || (x.o.DeepNest && x.p(60))) {
 		fmt.Fprintf(&x.sb, "%slabel.near: %s\n", in2, x.pick(labelPositions))
 	}
 	if isContainer {
